@@ -77,28 +77,7 @@ def run(ctx):
     ctx.clause("C03.1 page-loader siblings agree (callee/argument provenance/guards/cursor assignments)")
     ctx.clause("C03.2 footer readers agree")
     ctx.clause("C03.3 a DATA_VIEW pointer is never freed")
-    nfeat = 0
-    for a, b in (("load_dictionary_page_mmap", "load_dictionary_page_fread"),
-                 ("load_next_page_mmap", "load_next_page_fread")):
-        A = Summary(P, P.fn(a, PR), VOC, {"carquet_column_reader"}, header_records=HR, state_fields=SF, errnames=True)
-        B = Summary(P, P.fn(b, PR), VOC, {"carquet_column_reader"}, header_records=HR, state_fields=SF, errnames=True)
-        nfeat += len(A.features) + len(B.features)
-        same = sorted(k for k in A.features if A.features[k] == B.features.get(k))
-        for k in same:
-            ctx.ok("R9.siblings", "sibling|%s:%s/%s|%s" % (PR, a, b, k), PR, "feature `%s` agrees" % k,
-                   "%s" % sorted(map(str, A.features[k])), nontrivial=True)
-        for k, xa, xb in diff(A, B):
-            key = "sibling|%s:%s/%s|%s" % (PR, a, b, k)
-            why = allowed("loaders", k)
-            if why is None and k.startswith("guard:") and (k.endswith("-> ['CARQUET_ERROR_OUT_OF_MEMORY']") or (
-                    (xa or xb) and set(map(str, xa or [])) | set(map(str, xb or [])) <= {"CARQUET_ERROR_OUT_OF_MEMORY"})):
-                why = "which allocations a variant makes (and so which allocation-failure exits it has) is an I/O-mode detail"
-            what = "mmap and fread variants agree on `%s`" % k
-            if why:
-                ctx.suppressed("R9.siblings", key, PR, what, why)
-            else:
-                ctx.bad("R9.siblings", key, PR, what, "only %s: %s; only %s: %s" % (a, xa, b, xb))
-    ctx.floor("C03 loader features", nfeat, 80)
+    _loader_siblings(ctx)
 
     # footers: the three readers are compared through their rejection sets (their guard
     # dominance is decided under C18)
@@ -121,6 +100,8 @@ def run(ctx):
     # ---- view ownership
     nfree = 0
     for fn in P.funcs_under("src/reader/"):
+        if P.rel(fn.file) == PR:
+            continue        # the loaders and their helpers: decided by abstract execution in _loader_siblings
         frees = [c for c in fn.calls("free") if c.args() and c.args()[0].strip_casts().k == "MemberExpr"
                  and c.args()[0].strip_casts().name == "decoded_values"]
         if not frees:
@@ -188,29 +169,10 @@ def run(ctx):
             ctx.ob("R2.view", "view-free|%s:%s" % (P.rel(fn.file), fn.name), P.where(fr),
                    "free(decoded_values) is reached only when the buffer is owned (never a mmap view)",
                    path is None, "path: %s" % describe_path(fn, fn.cfg, path) if path else "")
-    ctx.floor("C03 free(decoded_values) sites", nfree, 5)
+    ctx.floor("C03 free(decoded_values) sites outside the loaders", nfree, 2)
     own = P.enum("carquet_data_ownership")
     if own.get("CARQUET_DATA_OWNED") != 0:
         raise AnalysisBroken("CARQUET_DATA_OWNED is no longer 0")
-    # the view is published together with its ownership tag
-    ln = P.fn("load_next_page_mmap", PR)
-    views = [a for a in ln.body.walk() if is_assign(a) and a.c[0].strip().k == "MemberExpr"
-             and a.c[0].strip().name == "decoded_values" and a.c[1].cv is None
-             and a.c[1].strip_casts().k not in ("CallExpr", "IntegerLiteral")]
-    tags = [a for a in ln.body.walk() if is_assign(a) and a.c[0].strip().k == "MemberExpr"
-            and a.c[0].strip().name == "decoded_ownership" and a.c[1].cv == 1]
-    okv = len(views) == 1 and len(tags) == 1 and ln.cfg.where()[views[0].i][0] == ln.cfg.where()[tags[0].i][0]
-    # ... and what is published as a view really is a pointer into the mapping (it stays valid until
-    # the reader is closed), never a heap buffer the column reader recycles
-    mapped = _mapped_locals(ln)
-    for v in views:
-        b = _ptr_base(v.c[1])
-        okp = b is not None and b in mapped
-        ctx.ob("R2.view", "view-provenance|%s:load_next_page_mmap" % PR, P.where(v),
-               "the pointer published as CARQUET_DATA_VIEW is derived from file_reader->mmap_data on every path",
-               okp, "value `%s`; locals derived from the mapping: %s" % (src(v.c[1])[:40], sorted(n for n in mapped.values())))
-    ctx.ob("R2.view", "view-tag|%s:load_next_page_mmap" % PR, P.where(ln.body),
-           "a pointer into the mapping is stored in decoded_values only together with decoded_ownership = VIEW", okv)
 
 
 def _ptr_base(e):
@@ -267,3 +229,120 @@ def _mapped_locals(fn):
                     changed = True
                     break
     return {d: names.get(d, d) for d, v in ok.items() if v and d != "mmap_data"}
+
+
+def _loader_siblings(ctx):
+    """The mmap and the stdio variant of each loader, executed abstractly on the same scenarios (page
+    type x CRC situation x codec x levels x value counts x physical type x position in the chunk): same verdict (page accepted or
+    refused), the same bytes handed to the same consumers, the same reader state afterwards. Plus the
+    ownership of what is published: a pointer into the mapping goes out only with the VIEW tag, and a
+    buffer that is a view is never handed to free."""
+    from ..rules import loaders as LD, sem
+    P = ctx.P
+    pt = P.enum("carquet_page_type")
+    cd = P.enum("carquet_compression")
+    own = P.enum("carquet_data_ownership")
+    phys = P.enum("carquet_physical_type")
+    VIEW = own.get("CARQUET_DATA_VIEW")
+    if VIEW is None:
+        raise AnalysisBroken("CARQUET_DATA_VIEW vanished")
+    UNC, SNAPPY = cd["CARQUET_COMPRESSION_UNCOMPRESSED"], cd["CARQUET_COMPRESSION_SNAPPY"]
+
+    def scenarios(isdict):
+        out = []
+        kinds = [pt["CARQUET_PAGE_DICTIONARY"], pt["CARQUET_PAGE_DATA"], pt["CARQUET_PAGE_DATA_V2"], pt["CARQUET_PAGE_INDEX"]]
+        for ptype in kinds:
+            for crc in ((0, 1, 0, 9), (1, 1, 0x55, 0x55), (1, 1, 0x55, 0x56), (1, 0, 0x55, 0x56)):
+                for codec in (UNC, SNAPPY):
+                    for levels in (True, False):
+                        out.append(dict(page_type=ptype, has_crc=crc[0], verify=crc[1], stored_crc=crc[2], computed_crc=crc[3],
+                                        codec=codec, levels=levels))
+        good = pt["CARQUET_PAGE_DICTIONARY"] if isdict else pt["CARQUET_PAGE_DATA"]
+        base = LD.DICT_OFF if isdict else LD.DATA_OFF
+        # (the property speaks of valid files: sizes and counts are non-negative and inside the file)
+        for geo in (dict(num_values=0), dict(num_values=30), dict(csize=0, usize=0, num_values=0),
+                    dict(file_size=base + LD.HEADER_SIZE + LD.CSIZE), dict(ptype=phys["CARQUET_PHYSICAL_BYTE_ARRAY"]),
+                    dict(ptype=phys["CARQUET_PHYSICAL_INT64"], num_values=15), dict(current_page=4096),
+                    dict(map_align=3), dict(map_align=1, ptype=phys["CARQUET_PHYSICAL_INT64"], num_values=15),
+                    dict(view_state=True, capacity=1), dict(view_state=True)):
+            for codec in (UNC, SNAPPY):
+                for levels in (True, False):
+                    sc = dict(page_type=good, has_crc=0, verify=1, stored_crc=0, computed_crc=0, codec=codec, levels=levels)
+                    sc.update(geo)
+                    out.append(sc)
+        return out
+
+    def norm(name, sc, ret, ev, out):
+        isdict = "dictionary" in name
+        base = LD.DICT_OFF if isdict else LD.DATA_OFF + sc.get("current_page", 0)
+        if "fread" in name:
+            rd = [e for e in ev if e[0] == "read" and e[1] == base + LD.HEADER_SIZE]
+            payload = rd[0][2] if rd else None
+        else:
+            payload = ("map", base + LD.HEADER_SIZE)
+
+        def nm(p_):
+            if p_ == payload and payload is not None:
+                return "payload"
+            if isinstance(p_, tuple) and p_ and isinstance(p_[0], str) and p_[0].startswith("m") and p_[0][1:].isdigit():
+                return "tmp"
+            return p_
+        cons = []
+        for e in ev:
+            if e[0] == "decompress":
+                cons.append(("decompress", e[1], nm(e[2]), e[3], nm(e[4]), e[5]))
+            elif e[0] in ("consume-dict", "consume-page"):
+                cons.append((e[0], nm(e[1]), e[2]))
+        view = out["decoded_values"] is not None and isinstance(out["decoded_values"], tuple) and out["decoded_values"][0] == "map" \
+            and out["decoded_values"] == payload
+        if view and ret == 0:
+            cons.append(("consume-page", "payload", sc.get("csize", LD.CSIZE)))
+        state = {k_: out[k_] for k_ in ("page_loaded", "page_num_values", "page_header_size", "page_compressed_size", "data_start_offset")}
+        return ("ok" if ret == 0 else "refused"), cons, state, payload
+
+    nsc = 0
+    for a, b in (("load_dictionary_page_mmap", "load_dictionary_page_fread"), ("load_next_page_mmap", "load_next_page_fread")):
+        verd = {"sibling-verdict": None, "sibling-consumers": None, "sibling-state": None, "view-tag": None, "view-free": None}
+        key0 = "%s:%s/%s" % (PR, a, b)
+        try:
+            for sc in scenarios("dictionary" in a):
+                nsc += 1
+                res = {}
+                for name in (a, b):
+                    ret, ev, out = LD.trace(P, name, **sc)
+                    res[name] = (ret, ev, out) + norm(name, sc, ret, ev, out)
+                    # ownership of what is published / released
+                    if ret == 0:
+                        dv = out["decoded_values"]
+                        inmap = isinstance(dv, tuple) and dv and dv[0] == "map"
+                        if inmap != (out["decoded_ownership"] == VIEW) and verd["view-tag"] is None:
+                            verd["view-tag"] = "%s, %s: decoded_values = %s with decoded_ownership = %s" % (
+                                name, _sc(sc), dv, out["decoded_ownership"])
+                    bad_free = [e for e in ev if e[0] == "free" and isinstance(e[1], tuple) and e[1] and e[1][0] == "map"]
+                    if bad_free and verd["view-free"] is None:
+                        verd["view-free"] = "%s, %s: free() of %s, a pointer into the mapping" % (name, _sc(sc), bad_free[0][1])
+                ra, rb = res[a], res[b]
+                if ra[3] != rb[3] and verd["sibling-verdict"] is None:
+                    verd["sibling-verdict"] = "%s: %s returns %s, %s returns %s" % (_sc(sc), a, ra[0], b, rb[0])
+                elif ra[3] == "ok":
+                    if ra[4] != rb[4] and verd["sibling-consumers"] is None:
+                        verd["sibling-consumers"] = "%s: %s feeds %s, %s feeds %s" % (_sc(sc), a, ra[4], b, rb[4])
+                    if ra[5] != rb[5] and verd["sibling-state"] is None:
+                        d_ = {k_: (ra[5][k_], rb[5][k_]) for k_ in ra[5] if ra[5][k_] != rb[5][k_]}
+                        verd["sibling-state"] = "%s: reader state differs (mmap, stdio): %s" % (_sc(sc), d_)
+            what = {"sibling-verdict": "the mmap and the stdio loader accept and refuse the same pages",
+                    "sibling-consumers": "an accepted page reaches the same codec / decoder with the same bytes and sizes in both",
+                    "sibling-state": "both leave the same page geometry and counts in the column reader",
+                    "view-tag": "a pointer into the mapping is published in decoded_values exactly with decoded_ownership = VIEW",
+                    "view-free": "a decoded_values buffer that is a view into the mapping is never passed to free"}
+            for k_, msg in verd.items():
+                ctx.ob("R9.siblings" if k_.startswith("sibling") else "R2.view", "%s|%s" % (k_, key0), PR,
+                       what[k_] + " (abstract execution of both variants)", msg is None, msg or "")
+        except (sem.Inconclusive, KeyError) as ex:
+            ctx.inconclusive("R9.siblings", "sibling-trace|" + key0, PR, "abstract execution of %s / %s" % (a, b),
+                             "%s: %s" % (type(ex).__name__, ex))
+    ctx.floor("C03 loader scenarios", nsc, 150)
+
+
+def _sc(sc):
+    return ", ".join("%s=%s" % (k, v) for k, v in sorted(sc.items()))
